@@ -84,6 +84,8 @@ pub struct BodyPlan {
     pub frame: usize,
     /// Virtual delay before each frame after the first.
     pub frame_delay_ms: u64,
+    /// insert a zero-length data frame after every n-th frame (0 = never)
+    pub empty_frame_every: usize,
 }
 
 /// Latency and transfer plan for one request.
@@ -428,7 +430,7 @@ impl http_body::Body for PlannedBody {
 }
 
 fn make_body(data: Vec<u8>, plan: &BodyPlan) -> reqwest::Body {
-    if plan.cut_at.is_none() && plan.frame == 0 {
+    if plan.cut_at.is_none() && plan.frame == 0 && plan.empty_frame_every == 0 {
         return reqwest::Body::from(data);
     }
     let total = data.len();
@@ -437,10 +439,19 @@ fn make_body(data: Vec<u8>, plan: &BodyPlan) -> reqwest::Body {
     let mut frames = VecDeque::new();
     let step = if plan.frame == 0 { end.max(1) } else { plan.frame };
     let mut i = 0;
+    let mut k = 0usize;
+    if plan.empty_frame_every > 0 && end > 0 {
+        // a zero-length frame right at the start is legal too
+        frames.push_back(Ok(Bytes::new()));
+    }
     while i < end {
         let j = (i + step).min(end);
         frames.push_back(Ok(bytes.slice(i..j)));
         i = j;
+        k += 1;
+        if plan.empty_frame_every > 0 && k % plan.empty_frame_every == 0 && i < end {
+            frames.push_back(Ok(Bytes::new()));
+        }
     }
     if plan.cut_at.is_some() {
         frames.push_back(Err(()));
